@@ -364,6 +364,7 @@ def doc_faults(rng, rule_doc, macro_files, rule_rel="rule.yaml", max_per_kind=6,
     add("empty_doc", raw="", klass="doc_shape")
     add("scalar_doc", raw="just a scalar\n", klass="doc_shape")
     add("list_doc", raw="- pattern\n- push\n", klass="doc_shape")
+    add("list_of_one_mapping_doc", raw="".join(("- " if i == 0 else "  ") + ln + "\n" for i, ln in enumerate(text.rstrip("\n").split("\n"))), klass="doc_shape")
 
     # ---- pattern entry
     d = copy.deepcopy(rule_doc)
@@ -391,7 +392,7 @@ def doc_faults(rng, rule_doc, macro_files, rule_rel="rule.yaml", max_per_kind=6,
             c = dict(base_cfg)
             c[key] = val
             add(f"{short}_{lab}", {**rule_doc, "config": c}, klass="config_flag_type")
-    for lab, val in (("str", ".text"), ("nonstr_items", [1, 2]), ("mapping", {".text": True}), ("int", 3)):
+    for lab, val in (("str", ".text"), ("nonstr_items", [1, 2]), ("mapping", {".text": True}), ("int", 3), ("null", None), ("mixed_items", [".text", None]), ("bool_items", [True])):
         c = dict(base_cfg)
         c["sections"] = val
         add(f"sections_{lab}", {**rule_doc, "config": c}, klass="config_sections_type")
@@ -434,6 +435,10 @@ def doc_faults(rng, rule_doc, macro_files, rule_rel="rule.yaml", max_per_kind=6,
                     add(f"not_arity:n_after:{level}@{_p(path)}", _edit(rule_doc, path + ("$not",), [copy.deepcopy(child)] + names), klass="not_arity")
                 if room(f"not_arity:n_before:{level}"):
                     add(f"not_arity:n_before:{level}@{_p(path)}", _edit(rule_doc, path + ("$not",), names + [copy.deepcopy(child)]), klass="not_arity")
+        if "$deref" in node and isinstance(node["$deref"], dict) and node["$deref"].get("main_reg") is not None:
+            if room("deref_field_type"):
+                add(f"deref_field_type:main_reg_empty_list@{_p(path)}", _edit(rule_doc, path + ("$deref", "main_reg"), []), klass="deref_field_type")
+                add(f"deref_field_type:deref_list@{_p(path)}", _edit(rule_doc, path + ("$deref",), [node["$deref"]["main_reg"]]), klass="deref_field_type")
         if "$deref" in node and isinstance(node["$deref"], dict):
             dd = dict(node["$deref"])
             dd.pop("main_reg", None)
